@@ -65,7 +65,7 @@ func c01Classes(m *AMsg, path string, tcpIn bool, at labRx) {
 func TestC01(t *testing.T) {
 	V.Rule("lab: well-formed requests (any method token; sip/sips/tel/urn Request-URI with users, passwords, ports, valued/valueless parameters, URI headers) and responses (100-699), 0-40 extension headers (token names incl. compact/odd-case/repeated; values empty, long around the 4096/8192/16384 windows, rich in % \" ; , < > = : @ ?, UTF-8, invalid UTF-8, NUL/TAB, white-space-like runes at the edges), any From/To/Call-ID/CSeq, bodies 0-60 KiB of arbitrary bytes, drawn header-name spelling, list layout and header interleaving; relayed over the four paths (backend, Route, static route, response by Via), UDP and TCP ingress/egress, listen entries with different settings; output read by the independent reader. non-trivial = >= 1 extension header and (a value with a non-token byte or > 4096 bytes, or a non-canonical spelling, or a non-empty body); distinct by input bytes + path")
 	V.Assume("outside the domain and not generated: folded lines, blanks before the colon, runs of blanks in the start line, messages without Content-Length, CR/LF inside values")
-	V.Require("a second request with the Via stack and method of the one before, other content", "pipelined over tcp", "path:backend", "path:route", "path:static", "path:response", "ingress:tcp", "ingress:udp", "egress:tcp", "egress:udp", "header line > 4096 bytes", "body has NUL/CR/LF", "non-canonical Content-Length spelling", "response or tel/urn Request-URI")
+	V.Require("Content-Length written with leading zeros", "a second request with the Via stack and method of the one before, other content", "pipelined over tcp", "path:backend", "path:route", "path:static", "path:response", "ingress:tcp", "ingress:udp", "egress:tcp", "egress:udp", "header line > 4096 bytes", "body has NUL/CR/LF", "non-canonical Content-Length spelling", "response or tel/urn Request-URI")
 	svc, err := newStdSvc(stdVariant{Keep: "", Default: false, NoReceived: [3]string{"", "true", ""}, MustRR: [3]string{"", "true", ""}})
 	if err != nil {
 		V.HarnessError(t, "cannot start lab instance: %v", err)
@@ -100,7 +100,7 @@ func TestC01(t *testing.T) {
 
 	rcheck(t, "requests", V.N(2500, 20000), func(rt *rapid.T) {
 		s := pick(rt)
-		rc := s.gRelayRequest(rt, relayOpts{JoinOpaque: true, Paths: []string{"backend", "route", "static"}, MaxVias: 4, MaxRRs: 2, MaxExt: 40, MaxLong: 16384, MaxBody: 60000})
+		rc := s.gRelayRequest(rt, relayOpts{JoinOpaque: true, Sloppy: true, Paths: []string{"backend", "route", "static"}, MaxVias: 4, MaxRRs: 2, MaxExt: 40, MaxLong: 16384, MaxBody: 60000})
 		V.Journal(t.Name()+"/requests", rc)
 		res, err := s.runRequest(rc)
 		if _, lost := err.(labLost); lost {
@@ -117,6 +117,7 @@ func TestC01(t *testing.T) {
 				return
 			}
 		}
+		V.ClassIf(rc.Msg.CLOverride != "", "Content-Length written with leading zeros")
 		c01Classes(rc.Msg, rc.Path, rc.Ingress.TCP, res.At)
 		if c01NonTrivial(rc.Msg) {
 			V.NonTrivial(rc.Path + "|" + string(rc.Msg.Bytes()))
